@@ -283,8 +283,11 @@ func parseComment(s string, line int) (parsed []Comment) {
 				} else {
 					state = needsValue
 				}
-
+				goto NEXT
 			}
+			// Invalid character in the comment type, ignore this comment.
+			buf.Reset()
+			state = needsHash
 		case needsValue:
 			if unicode.IsSpace(r) {
 				goto NEXT
